@@ -679,6 +679,30 @@ def to_int_spec(ty, cfg, n, args, ev):
     return _conv_lanes(ty, D, args[0], _ret_lanes(ev, n, D.bits), 'to_int: lane i = static_cast<%s>(lane i)' % D.c)
 
 
+def nearbyint_as_int_spec(ty, cfg, n, args, ev):
+    """lane i = (integer of the same width) nearbyint(lane i): a hardware convert in the current rounding mode, or
+    the truncating conversion of any accepted form of nearbyint / rint"""
+    from . import specs as S_
+    D = _TYS['i32' if ty.bits == 32 else 'i64']
+    label = 'nearbyint_as_int: lane i = (%s) nearbyint(lane i)' % D.c
+    gots = _ret_lanes(ev, n, D.bits)
+    for i, (x, got) in enumerate(zip(args[0], gots)):
+        cg = T.canon(got)
+        alts = []
+        if ty.bits == 32:
+            alts.append(('cvtps2dq (rounds in the current mode)', T.raw_op('x86.cvtps2dq', 32, x)))
+        for (lab, k_, r) in S_.rounding('nearbyint')(ty, x):
+            if k_ != 'P':
+                continue
+            for conv in ('fptosi',):
+                alts.append(('(int) %s' % lab, T.raw_op(conv, D.bits, r, attrs=ty.bits)))
+            if ty.bits == 32:
+                alts.append(('cvttps2dq of %s' % lab, T.raw_op('x86.cvttps2dq', 32, r)))
+        if not any(T.canon(w_) == cg for (_l, w_) in alts):
+            return False, label, 'P', 'lane %d is %s, expected e.g. %s' % (i, T.fmt(got, 5)[:300], T.fmt(alts[0][1], 4)[:160])
+    return True, label, 'P', ''
+
+
 def bitwise_cast_spec(ty, cfg, n, args, ev, To):
     label = 'bitwise_cast: the result register holds exactly the source register\'s bytes'
     ret = ev.ret
